@@ -63,13 +63,31 @@ CHECKS = {
             "Lean theorems C09.{onepoint,twopoint,uniform,messy}_multiset, *_locus, *_lengths, uniform(R)_exact, es_pairs(+_multiset,_locus,_lengths), "
             "pmx_perm, upmx_perm, ox_perm (aliased in-place model), shuffle_perm/shuffle_total/shuffle_raises, inversion_perm(+_exact), flip_exact/complement/length, "
             "uniform_int_bounds(+_scalar,_seq,_total)/uniform_int_rejects/uniform_int_exact hold for every gene list, every length and every draw inside the ranges of "
-            "randint/sample/randrange/random; model Core/CrossMut.lean is diffed against deap.tools under forced tapes (all permutation pairs n<=4 x all draws, all cut "
-            "points, all decision vectors) and recorded value tapes that are agnostic of the drawing API (n<=12 plus permutations of length 257..400, list/array "
-            "b,i,q,d/numpy, bounds as int/list/tuple/range/array up to +-2^40, gene types checked for bit flip), statement evaluated as oracle on the real objects.",
-            TB + "CPython list/array item+slice assignment and tuple-assignment order as transcribed; random functions return values in their documented ranges "
-            "(uniform_int_bounds is about position<->bound alignment); parents are distinct objects; numpy only for element-wise operators; in-place/identity "
-            "(in_place1/2/_es fix the model's convention only) is established on the real objects by `is` on every case.",
-            "Lean 4 proof over a hand-written model + tape-replay differential correspondence + oracle"),
+            "randint/sample/randrange/random. The representation is explicit: Core/Buffer.lean models sequence objects as buffers in a heap with the slice disciplines "
+            "copy (list, array.array: a slice is a fresh object) and view (numpy.ndarray: a slice is a window onto the same storage, slice assignment reads its right-hand "
+            "side at assignment time, equal lengths or one-item broadcast, else ValueError), Core/CrossMutBuf.lean re-expresses all twelve operators over that interface "
+            "statement by statement with Python's tuple-assignment order. Proved for every heap and every pair of different objects: under copy each operator completes "
+            "under its guard - no subscript fails, also for PMX/UPMX/OX - writes only its arguments and leaves the list model's children in them (copy_refines_list(+_onepoint,"
+            "_twopoint,_messy,_es,_inversion), refines_list_uniform/pmx/upmx/ox/shuffle/flip/uniform_int), so the clause theorems above are theorems about list- and "
+            "array.array-backed individuals; the element-wise operators do not depend on the discipline (elementwise_repr_independent) and every clause holds for "
+            "numpy-backed individuals too (uniform/pmx/upmx/ox/shuffle/flip/uniform_int/inversion_any_backing); mutInversion is the same under both disciplines "
+            "(inversion_repr_independent); under view the slice-swapping crossovers return parent 2 unchanged and lose parent 1's segment for ALL parents and draws "
+            "(twopoint_view_exact, onepoint_view_exact, es_view_exact), conserve the gene multiset iff the two segments hold the same genes (twopoint_view_conserves_iff), "
+            "with concrete witnesses inside every guard incl. the ValueError cases (slice_swap_view_loses_genes) - the restriction documented in "
+            "doc/tutorials/advanced/numpy.rst is exactly the boundary. Both models are diffed against deap.tools: the list model under forced tapes (all permutation pairs "
+            "n<=4 x all draws, all cut points, all decision vectors) and recorded value tapes agnostic of the drawing API (n<=12 plus permutations of length 257..400, "
+            "list/array b,i,q,d/numpy, bounds as int/list/tuple/range/array up to +-2^40 and next to 2^53/2^62, gene types checked for bit flip); the buffer model by calling "
+            "EVERY operator with the same draws on list, array.array and numpy.ndarray individuals (ES: numpy and list strategies) and comparing with the model under both "
+            "disciplines, including the gene-losing numpy results, the raised ValueError and the contents the exception leaves behind; statement evaluated as oracle on the "
+            "real objects.",
+            TB + "CPython list/array item+slice assignment and tuple-assignment order as transcribed; numpy slice = view, item = scalar (one-dimensional individuals), "
+            "assignment-time read of the right-hand side (overlap copied first, numpy >= 1.13), broadcast rule as transcribed in Core/Buffer.lean and exercised on real "
+            "arrays by the representation stream; random functions return values in their documented ranges (uniform_int_bounds is about position<->bound alignment); "
+            "parents are distinct objects; the oracle's domain is list/array.array for every operator and numpy for the element-wise operators only (as the statement's "
+            "quantifier says): slice-swapping crossovers and mutInversion on numpy are compared with the view model, never judged; in-place/identity (in_place1/2/_es fix "
+            "the model's convention; the buffer operators return the ids they were given and the refinement theorems carry a frame condition) is established on the real "
+            "objects by `is` on every case.",
+            "Lean 4 proof over a hand-written model (list model + heap/buffer model with slice disciplines, refinement proved) + tape-replay differential correspondence + oracle"),
     "C19": ("full",
             "Lean theorems C19.feasible_passthrough_delta/closest, delta_no_call, delta_formula(+_no_distance), delta_length, closest_calls, "
             "closest_formula, closest_length, closest_size_mismatch, never_better_delta/closest, monotone_in_distance_delta/closest hold over every "
